@@ -310,11 +310,12 @@ def _on_alarm(signum, frame):
 
 
 def guarded(fn, *args, budget=3.0):
-    """Run one implementation call under a wall-clock budget (SIGALRM; main thread only)."""
-    old = signal.signal(signal.SIGALRM, _on_alarm)
-    signal.setitimer(signal.ITIMER_REAL, budget)
+    """Run one implementation call under a budget of CPU time of this process (ITIMER_VIRTUAL; main thread only):
+    a call that never returns burns CPU and is cut off, a process that is merely descheduled on a loaded machine is not."""
+    old = signal.signal(signal.SIGVTALRM, _on_alarm)
+    signal.setitimer(signal.ITIMER_VIRTUAL, budget)
     try:
         return fn(*args)
     finally:
-        signal.setitimer(signal.ITIMER_REAL, 0)
-        signal.signal(signal.SIGALRM, old)
+        signal.setitimer(signal.ITIMER_VIRTUAL, 0)
+        signal.signal(signal.SIGVTALRM, old)
